@@ -19,7 +19,7 @@ def _apply(sources, v):
         out = {}
         for p, txt in sources.items():
             try:
-                new = fn(txt)
+                new = fn(txt, sources) if getattr(fn, "needs_sources", False) else fn(txt)
             except Exception:
                 return None
             if new != txt:
@@ -79,7 +79,12 @@ def keep_variants(prop):
     for name in sorted(os.listdir(sd)):
         pp = os.path.join(sd, name, "patch.diff")
         if os.path.exists(pp):
-            out.append(dict(id="keep:" + name, props=[prop], kind="keep", path="@seed", old=pp, new="", note=""))
+            lim = {}
+            mp = os.path.join(sd, name, "meta.json")
+            if os.path.exists(mp):
+                lim = json.load(open(mp)).get("undecided_in", {})
+            # a recorded limitation: this check cannot decide this refactoring (exit 2, never exit 1); see DESIGN.md A10
+            out.append(dict(id="keep:" + name, props=[prop], kind="keep", path="@seed", old=pp, new="", note="", may_be_undecided=prop in lim))
     return out
 
 
@@ -149,6 +154,8 @@ def run_corpus(prop, repo, seed, write_evidence=True):
             stats["variants_preserving"] += 1
             if r == 0:
                 stats["silent"] += 1
+            elif r == 2 and v.get("may_be_undecided"):
+                stats["undecided_recorded"] = stats.get("undecided_recorded", 0) + 1
             else:
                 problems.append(f"preserving variant {v['id']} raised exit {r}: {first}")
         table.append({"id": v["id"], "kind": v["kind"], "result": r, "first": first})
